@@ -71,6 +71,11 @@ def grid(rng, thorough):
         add("index.dup-" + kind, base, index_dup=(kind,))
         add("volume.dup-" + kind, base, vol_dup=(kind,))
     add("volume.only-recovery-packets", base, vol_drop=("creator", "main", "fdesc", "ifsc"))
+    # a recovery file may legally omit the main packet (and everything else but its recovery packets): the size of its
+    # blocks must then still be checked against the INDEX's slice size
+    for vd in (("main",), ("creator", "main", "fdesc", "ifsc")):
+        for ln in (0, 4, S - 4, S + 4, 2 * S):
+            add("volume.drop-%s+recv.len=%d" % ("+".join(vd), ln), base, vol_drop=vd, recv_override={1: (1, L.gen_content(rng, "random", ln))})
     # --- pairs of mutations (thorough) ---
     if thorough:
         singles = [("main", {"slice": v}) for v in (4, S + 4, 1 << 63)] + [("main", {"count": v}) for v in (1, 4)]
@@ -211,7 +216,7 @@ def run(ctx):
         extra["par1"] = "PAR1 grid not built yet"
     return ctx.finish(
         "proof",
-        rule="enumerated grid of PAR2 sets produced by the independent writer with declared fields overridden BEFORE ids, set id and packet hashes are computed (so every packet is well-checksummed): main slice size and recovery count at boundary values (0,1,field+-1/+-4,2^31,2^40(+4),2^63(-4),2^64-1), unsorted/duplicate/unknown/extra ids, truncated main body; file description length at boundary values and slice multiples, wrong hashes, hostile names; checksum list shorter/longer, wrong CRCs; recovery exponent 0..65536, 2^31, 2^32-1, wrong block sizes, duplicate identical/different, wrong data, recovery packet in the index; removal and duplication of every packet type in index and volume; (thorough: pairs) x data files intact / one missing / one damaged / all missing; Verify and Repair in a child with a 6 GiB address-space limit",
+        rule="enumerated grid of PAR2 sets produced by the independent writer with declared fields overridden BEFORE ids, set id and packet hashes are computed (so every packet is well-checksummed): main slice size and recovery count at boundary values (0,1,field+-1/+-4,2^31,2^40(+4),2^63(-4),2^64-1), unsorted/duplicate/unknown/extra ids, truncated main body; file description length at boundary values and slice multiples, wrong hashes, hostile names; checksum list shorter/longer, wrong CRCs; recovery exponent 0..65536, 2^31, 2^32-1, wrong block sizes, duplicate identical/different, wrong data, recovery packet in the index; removal and duplication of every packet type in index and volume; wrong block sizes in a volume without main packet / with recovery packets only; (thorough: pairs) x data files intact / one missing / one damaged / all missing; Verify and Repair in a child with a 6 GiB address-space limit",
         exhaustive=True,
         extra=dict(extra, predicate="no panic/crash; counts truthful; nothing but protected paths written, and only with the protected content",
                    compared="outcome class, counts, repaired list, I/O trace, changed files vs the extracted model"))
